@@ -870,7 +870,11 @@ def directed_shortcut_histories():
         h = corpus_history(9600 + i, cmds, {}, mode, "shortcut-middle-%d" % k)
         h["sources"] = ["src0.txt", "src1.txt"]
         F = {"c0": ("exit", 2) if i % 2 == 0 else ("after-exit", 0)}
-        h["builds"] = [dict(fail={}, edit=None), dict(fail=F, edit="src0.txt"), dict(fail=F, edit=None), dict(fail={}, edit=None)]
+        # the last command has no good result yet when c0 fails (it failed itself in the first build), so it WOULD run if
+        # the failure did not reach it
+        last = "c%d" % (k + 1)
+        first = {last: ("exit", 5)} if i < 3 else {}
+        h["builds"] = [dict(fail=first, edit=None), dict(fail=F, edit="src0.txt"), dict(fail=F, edit=None), dict(fail={}, edit=None)]
         hs.append(h)
     return hs
 
